@@ -10,7 +10,7 @@ mkdir -p "$OUT/evidence"; cp /verif/known_findings.txt "$OUT/"
 cleanup() { git -C /repo worktree remove --force "$WT" 2>/dev/null; rm -rf "$OUT" "/verif/.work/alt/$(echo "$WT" | tr -c 'A-Za-z0-9' _)"; }
 trap cleanup EXIT
 git -C "$WT" apply "$P" || { echo "patch does not apply"; exit 2; }
-VERIF_REPO="$WT" VERIF_OUT="$OUT" /verif/check.sh "$ID" "$TIER" > "$OUT/log" 2>&1; rc=$?
+VERIF_REPO="$WT" VERIF_OUT="$OUT" timeout ${TRYSEED_TIMEOUT:-3000} /verif/check.sh "$ID" "$TIER" > "$OUT/log" 2>&1; rc=$?
 grep -c '^VIOLATION' "$OUT/log" | sed "s/^/violations: /"
 grep '^VIOLATION\|fingerprint\|^C[0-9][0-9] \|HARNESS\|build failed' "$OUT/log" | grep -v "^KNOWN" | head -${TRYSEED_LINES:-12}
 echo "exit=$rc"
